@@ -219,6 +219,8 @@ fn det_cases<X: Sx>(ctx: &Ctx, r: &mut impl RngCore, part: usize) -> Vec<(String
                 ("empty".into(), Some(vec![])),
                 ("none".into(), None),
                 ("200B".into(), Some(vec![b'a'; 200])),
+                ("binary".into(), Some(vec![0x00, 0xff, 0x80, 0xc3, 0x28, 0xe2, 0x82, 0x41])),
+                ("binary2".into(), Some(vec![0x00, 0xff, 0x81, 0xc3, 0x28, 0xe2, 0x83, 0x41])),
                 ("other-suite".into(), Some(if X::ID == SuiteId::Sha { SuiteId::Shake.api_id() } else { SuiteId::Sha.api_id() })),
             ];
             let counts: Vec<usize> = if q { vec![0, 1, 2, 3, 16, 65] } else { (0..=40).chain([64, 65, 127, 128, 255, 256, 257, 1000]).collect() };
